@@ -691,6 +691,49 @@ send_packet_strict = _c11._mk_send_packet(
     always=[])
 
 
+# ------------------------------------------------------------------------------------------------ kex range closes at OUR NEWKEYS
+# "Before the first key exchange completes an endpoint accepts only the messages that exchange calls for ... anything
+# else never takes effect": the method-specific messages 30..49 belong to ONE exchange, which for this endpoint is over
+# when it sends NEWKEYS (RFC 4253 7.3: NEWKEYS ends the exchange; everything after it is protected by the new keys).
+# The gate (c06.py, gate-sound) hands 30..49 to a handler only while an exchange object is registered (_kex), so the
+# requirement is: by the time our NEWKEYS leaves, no exchange object is registered any more - from then on 30..49 are
+# rejected ('Key exchange not in progress') until a new KEXINIT exchange registers a new one (_process_kexinit).
+def _c02_send_newkeys():
+    """the send_newkeys contract frame of contracts/c02.py (stubs / heap shape), when c02 is completely imported"""
+    try:
+        from . import c02
+    except Exception:       # noqa
+        return None
+    return getattr(c02, 'send_newkeys', None)
+
+
+def _no_kex(v):
+    return z3.BoolVal(True) if v is VNone else (v.isnone if isinstance(v, VOpt) else z3.BoolVal(False))
+
+
+def nk_gate_send_stub(cx):
+    if concrete_int(cx.args[0]) == 21:
+        cx.require('our-NEWKEYS-leaves-only-after-the-exchange-object-is-dropped', _no_kex(cx.selff('_kex')))
+    return [Out(event=('send_packet', tuple(cx.args)))]
+
+
+nk_gate_send_stub.modifies = ()
+_nk = _c02_send_newkeys()
+if _nk is not None:
+    send_newkeys_gate = finish(Spec(
+        'C06', 'connection', 'SSHConnection.send_newkeys', self_class='SSHConnection', params=dict(_nk.params),
+        classes=_nk.classes, stubs=dict(_nk.stubs, **{'self.send_packet': nk_gate_send_stub}),
+        requires=_nk.requires,
+        ensures=[('exchange-over:no-kex-handler-registered-after-our-NEWKEYS(30..49-rejected-until-the-next-KEXINIT)',
+                  lambda c: z3.And(_no_kex(c.newv('_kex')),
+                                   z3.BoolVal(any(concrete_int(x['args'][0]) == 21 for x in c.calls('send_packet')))))],
+        raises=dict(_nk.raises)))
+    for _attr in ('no_replay', 'opaque_native', 'runtime_class', 'feasible_timeout_ms', 'lazy_byte_ranges',
+                  'model_timeout_ms', 'confirm_attempts'):
+        if hasattr(_nk, _attr):
+            setattr(send_newkeys_gate, _attr, getattr(_nk, _attr))
+
+
 def extra_checks(tier, seed):
     """Bounded native stand-in (NOT counted as proof) for the strict-kex first-packet rule: the region contract of
     _process_kexinit cannot be replayed natively, specs/c06_native.py runs the real function over the finite grid of
